@@ -361,8 +361,8 @@ impl<'a> Chk<'a> {
                     Ts::Lit(s) => vec![s.clone()],
                     _ => vec![],
                 };
-                if lits != ["a", "b"] {
-                    self.d(format!("ts|ctx={ctx}|decl=enum-literals|kind=enum"), format!("expected \"a\" | \"b\", got {got:?}"));
+                if lits != ["a", "b-c"] {
+                    self.d(format!("ts|ctx={ctx}|decl=enum-literals|kind=enum"), format!("expected \"a\" | \"b-c\" (JER values keep the ASN.1 spelling), got {got:?}"));
                 }
             }
             Ty::SeqOf(e) | Ty::SetOf(e) => match got {
@@ -459,7 +459,7 @@ impl Prop for C18 {
             match (found[0], t) {
                 (Decl::Enum(_, ms), Ty::Enum) => {
                     let got: Vec<(String, String)> = ms.clone();
-                    if got != vec![("a".to_string(), "a".to_string()), ("b".to_string(), "b".to_string())] {
+                    if got != vec![("a".to_string(), "a".to_string()), ("b_c".to_string(), "b-c".to_string())] {
                         k.d("ts|decl=enum|kind=enum".into(), format!("{got:?}"));
                     }
                 }
